@@ -509,7 +509,9 @@ class MarkdownRenderer(BaseRenderer):
                 is_first_line = False
             else:
                 prefixed = following_line_prefix + line
-            yield prefixed if not prefixed.isspace() else ""
+            # no trailing whitespace on (prefixed) empty lines. lines that consist of
+            # whitespace themselves are content (of a code block) and are kept.
+            yield prefixed if line or not prefixed.isspace() else ""
 
     def table_row_to_text(self, row) -> Sequence[str]:
         """
